@@ -35,6 +35,7 @@ class Func:
         self.qualname, self.name, self.cls, self.kind, self.ret = qualname, name, cls, kind, ret
         self.params, self.types, self.text, self.lines, self.report = params, types, text, lines, report
         self.tree = ast.parse(textwrap.dedent(text)).body[0]
+        ast.increment_lineno(self.tree, lines[0] - 1)     # line numbers of obligations = lines of the .pyx (approx.: dropped lines shift)
 
 
 def _split_top(s, sep=","):
@@ -293,6 +294,8 @@ def c_anchor_check(pyx_path, c_path):
             if "<<<<<<<<<<<<<<" in cl:
                 txt = cl.split("<<<<<<<<<<<<<<")[0]
                 txt = re.sub(r"^\s*\*\s?", "", txt).rstrip()
+                if txt.endswith("#"):
+                    txt = txt[:-1].rstrip()
                 n += 1
                 if ln - 1 >= len(src) or src[ln - 1].strip() != txt.strip():
                     bad += 1
